@@ -21,15 +21,16 @@ Section Conf.
   Variable selected : list (list N) -> bool.
   Hypothesis Hsel : forall p, selected p = true.
   Variable sdof : N -> dent.
+  Variable S : Prop.
   Notation Inv := (Inv o).
-  Notation Lk := (Lk o ms multi sdof).
+  Notation Lk := (Lk o ms multi sdof S).
   Notation touch := (touch o).
   Notation ov := (ov o ms multi).
   Notation ovk := (ovk o ms multi).
   Notation res := (res o ms multi).
   Notation nc := (nc o).
   Notation tok := tok.
-  Notation node_ok := (node_ok o ms multi selected sdof).
+  Notation node_ok := (node_ok o ms multi selected sdof S).
   Notation kids_loop := (kids_loop o ms multi selected).
 
   (* ---- G ---- *)
@@ -123,44 +124,44 @@ Section Conf.
   (* ---- the statement ---- *)
   Definition node_conf (n : snode) : Prop :=
     forall sc T ow st X cls p bef,
-      Inv (c_fs st) X -> Lk (c_fs st) X (c_imap st) -> PC T (c_imap st) ->
+      Inv (c_fs st) X -> Lk (c_fs st) X (c_imap st) -> (S -> PC T (c_imap st)) ->
       tok X T (sdent n) -> o_replace o = false ->
       first_conflict X T n = Some (XConflict cls p bef) ->
       exists st' e X', copy_node o ms multi selected n sc T ow st = (st', Some e) /\ err_cls e = cls /\
         Inv (c_fs st') X' /\ Lk (c_fs st') X' (c_imap st') /\ X' p = bef /\ bef <> None /\
-        (forall cr, G X cr -> G X' cr) /\ c_stale st' = c_stale st.
+        (forall cr, G X cr -> G X' cr).
 
   Lemma bind_err s e (k : cstate -> R) : bind (s, Some e) k = (s, Some e).
   Proof. reflexivity. Qed.
 
   Lemma kids_conf l : Forall node_ok l -> Forall node_conf l -> forall sc T st Xc cls p bef,
     NoDup (map sname l) -> Inv (c_fs st) Xc -> Lk (c_fs st) Xc (c_imap st) ->
-    (forall k, In k l -> PC (T ++ [sname k]) (c_imap st)) ->
+    (S -> forall k, In k l -> PC (T ++ [sname k]) (c_imap st)) ->
     x_isdir (Xc T) = true -> o_replace o = false ->
     kids_conflict Xc T l = Some (XConflict cls p bef) ->
     exists st' e X', kids_loop sc T l st = (st', Some e) /\ err_cls e = cls /\
       Inv (c_fs st') X' /\ Lk (c_fs st') X' (c_imap st') /\ X' p = bef /\ bef <> None /\
-      (forall cr, G Xc cr -> G X' cr) /\ c_stale st' = c_stale st.
+      (forall cr, G Xc cr -> G X' cr).
   Proof.
     intros Hok Hcf. induction l as [|k r IH]; intros sc T st Xc cls p bef Hnd I L Hpc HT Hr Hc; [discriminate|].
     inversion Hok as [|? ? Hk Hok']; inversion Hcf as [|? ? Hck Hcf']; subst.
     simpl in Hnd. inversion Hnd as [|? ? Hni Hnd']; subst.
     rewrite kids_loop_cons. simpl in Hc.
     assert (Htok : tok Xc (T ++ [sname k]) (sdent k)) by (right; exists T, (sname k); auto).
-    assert (Hpck : PC (T ++ [sname k]) (c_imap st)) by (apply Hpc; left; auto).
+    assert (Hpck : S -> PC (T ++ [sname k]) (c_imap st)) by (intro HS; apply Hpc; auto; left; auto).
     destruct (first_conflict Xc (T ++ [sname k]) k) as [c|] eqn:Ec.
     - inversion Hc; subst c.
       destruct (Hck (sc ++ [sname k]) (T ++ [sname k]) true st Xc cls p bef I L Hpck Htok Hr Ec)
-        as (st' & e & X' & E1 & E2 & E3 & E4 & E5 & E6 & E7 & E8).
+        as (st' & e & X' & E1 & E2 & E3 & E4 & E5 & E6 & E7).
       rewrite E1, bind_err. exists st', e, X'. spl; auto.
-    - destruct (Hk (sc ++ [sname k]) (T ++ [sname k]) true st Xc I L Hpck Htok) as (st1 & E1 & I1 & L1 & M1 & N1 & S1).
+    - destruct (Hk (sc ++ [sname k]) (T ++ [sname k]) true st Xc I L Hpck Htok) as (st1 & E1 & I1 & L1 & M1 & N1).
       { intros _. auto. }
       rewrite E1, bind_ret. cbn [negb] in I1, L1.
       set (Xc' := res k (T ++ [sname k]) false Xc) in *.
       assert (Hoth : forall b r0, bytes_eqb (sname k) b = false -> Xc' (T ++ b :: r0) = Xc (T ++ b :: r0)).
       { intros b r0 Hb. apply res_kid_other; [apply below_ne|]. rewrite strip_snoc_below, Hb. auto. }
-      destruct (IH Hok' Hcf' sc T st1 Xc' cls p bef) as (st' & e & X' & F1 & F2 & F3 & F4 & F5 & F6 & F7 & F8); auto.
-      { intros k2 Hin s l i Hrec. destruct (M1 _ _ _ Hrec) as [Hold|Hu].
+      destruct (IH Hok' Hcf' sc T st1 Xc' cls p bef) as (st' & e & X' & F1 & F2 & F3 & F4 & F5 & F6 & F7); auto.
+      { intros HS k2 Hin s l i Hrec. destruct (M1 _ _ _ Hrec) as [Hold|Hu].
         - eapply Hpc; eauto. right; auto.
         - eapply prefix_disjoint; eauto. intro E. apply Hni. rewrite E. apply in_map. auto. }
       { unfold Xc'. rewrite res_T_isdir. auto. }
@@ -204,7 +205,7 @@ Section Conf.
         destruct (inv_x_some _ _ _ _ _ I HXT) as (i & Hi & Hm & Hkey).
         assert (Hdi : is_dir (inodes (c_fs st) i) = true) by (rewrite (dm_is_dir _ _ _ Hm); auto).
         assert (Hns : forall s, x_key e <> KSrc s).
-        { intros s Hs. pose proof (lk_src_not_dir _ _ _ _ _ _ _ _ _ _ L0 HXT Hs). congruence. }
+        { intros s Hs. pose proof (lk_src_not_dir _ _ _ _ _ _ _ _ _ _ _ L0 HXT Hs). congruence. }
         assert (S2 : exists fs2 e2, (if ow then match upd_path T (set_perm (perm12 sd)) (c_fs st) with
                                                | Some fs' => (with_fs st fs', None, false)
                                                | None => (st, Some EOther, false) end
@@ -219,7 +220,7 @@ Section Conf.
               * eapply dir_unique; eauto.
               * apply ftype_set_perm.
               * apply dm_set_perm; auto.
-            + eapply (Lk_upd o ms multi sdof (c_fs st) _ _ _ T e e2 L0); auto.
+            + eapply (Lk_upd o ms multi sdof S (c_fs st) _ _ _ T e e2 L0); auto.
             + cbn [e2 x_d]. rewrite <- (is_dir_ftype _ _ (eq_sym (ftype_set_perm (perm12 sd) (x_d e)))). auto.
             + intros cr Hg. apply G_xupd; auto. specialize (Hg T). rewrite HXT in Hg. exact Hg.
           - assert (EX : forall q, xupd T (Some e) X q = X q).
@@ -234,17 +235,17 @@ Section Conf.
         assert (L3 : Lk (c_fs st3) (xupd T (Some e2) X) (c_imap st3)) by (unfold st3; destruct (true && (false || ow)); auto).
         assert (M3 : c_imap st3 = c_imap st) by (unfold st3; destruct (true && (false || ow)); auto).
         destruct (kids_conf kids Hoks Hcfs sc T st3 (xupd T (Some e2) X) cls p bef Hnd I3 L3)
-          as (st' & e' & X' & F1 & F2 & F3 & F4 & F5 & F6 & F7 & F8); auto.
-        { intros k Hin. rewrite M3. apply PC_kid. auto. }
+          as (st' & e' & X' & F1 & F2 & F3 & F4 & F5 & F6 & F7); auto.
+        { intros HS k Hin. rewrite M3. apply PC_kid. auto. }
         { rewrite xupd_same. auto. }
         { rewrite <- Hc. apply kids_conflict_ext. intros b r _. apply xupd_other, below_ne. }
         rewrite F1, bind_err. exists st', e', X'. spl; auto.
-        rewrite F8. unfold st3. destruct (true && (false || ow)); auto.
       + inversion Hc; subst.
         unfold copy_dir_only. rewrite ELs, (dm_is_dir _ _ _ HL), Hde. cbn [negb].
         exists st, EDirOverNondir, X. spl; auto. discriminate.
     - destruct (is_dir (x_d e)) eqn:Hde; [|discriminate]. inversion Hc; subst.
-      unfold ensure_empty_file_target. rewrite ELs, (dm_is_dir _ _ _ HL), Hde.
-      exists st, ENondirOverDir, X. spl; auto. discriminate.
+      unfold ensure_empty_file_target. rewrite forget_fs, ELs, (dm_is_dir _ _ _ HL), Hde.
+      exists (forget p st), ENondirOverDir, X. spl; auto; try discriminate.
+      rewrite forget_fs, forget_imap. apply Lk_forget; auto.
   Qed.
 End Conf.
